@@ -252,10 +252,19 @@ impl Mesh {
     }
 }
 
+/// The result of the part of the near check which depends only on the vertex: whether it was
+/// within the planar tolerance of its projection, and the normal of the reference triangle it
+/// projected onto (if that triangle has one).
+type VertexNear = (bool, Option<UnitVec3>);
+
 struct MeshNearCheck<'a> {
     this_mesh: &'a Mesh,
     ref_mesh: &'a Mesh,
-    checked: HashMap<u32, bool>,
+    /// Cached per-vertex results; `None` means the vertex did not project onto the reference mesh
+    /// within the distance tolerance. Only the vertex-dependent part is cached: the angle between
+    /// the face normal and the reference normal belongs to the face that is asking, and a vertex is
+    /// shared by faces with different normals.
+    checked: HashMap<u32, Option<VertexNear>>,
     distance_tol: f64,
     planar_tol: Option<f64>,
     angle_tol: Option<f64>,
@@ -279,52 +288,53 @@ impl<'a> MeshNearCheck<'a> {
         }
     }
 
-    fn store_and_return(&mut self, vertex_index: u32, result: bool) -> bool {
+    fn vertex_check(&mut self, vertex_index: u32) -> Option<VertexNear> {
+        if let Some(&checked) = self.checked.get(&vertex_index) {
+            return checked;
+        }
+
+        let p = self.this_mesh.vertices()[vertex_index as usize];
+        let result = self
+            .ref_mesh
+            .project_with_max_dist(&p, self.distance_tol)
+            .map(|(prj, ri, _loc)| {
+                // We need to get the normal of the reference triangle
+                let rn = self.ref_mesh.shape.triangle(ri).normal();
+                let check_planar = match (self.planar_tol, rn) {
+                    (Some(planar_tol), Some(rn)) => {
+                        SurfacePoint3::new(prj.point, rn).planar_distance(&p) <= planar_tol
+                    }
+                    _ => true,
+                };
+                (check_planar, rn)
+            });
+
         self.checked.insert(vertex_index, result);
         result
     }
 
     fn near_check(&mut self, vertex_index: u32, face_normal: Option<UnitVec3>) -> bool {
-        if let Some(&checked) = self.checked.get(&vertex_index) {
-            checked
-        } else {
-            let p = self.this_mesh.vertices()[vertex_index as usize];
-
-            let is_ok = if let Some((prj, ri, _loc)) =
-                self.ref_mesh.project_with_max_dist(&p, self.distance_tol)
-            {
-                if self.planar_tol.is_none() && self.angle_tol.is_none() {
-                    true
-                } else if let Some(rn) = self.ref_mesh.shape.triangle(ri).normal() {
-                    // We need to get the normal of the reference triangle
-                    let rsp = SurfacePoint3::new(prj.point, rn);
-
-                    let check_planar = if let Some(planar_tol) = self.planar_tol {
-                        rsp.planar_distance(&p) <= planar_tol
+        if let Some((check_planar, rn)) = self.vertex_check(vertex_index) {
+            if self.planar_tol.is_none() && self.angle_tol.is_none() {
+                true
+            } else if let Some(rn) = rn {
+                let check_angle = if let Some(angle_tol) = self.angle_tol {
+                    if let Some(face_normal) = face_normal {
+                        face_normal.angle(&rn) <= angle_tol
                     } else {
-                        true
-                    };
-
-                    let check_angle = if let Some(angle_tol) = self.angle_tol {
-                        if let Some(face_normal) = face_normal {
-                            face_normal.angle(&rn) <= angle_tol
-                        } else {
-                            // No face normal, so we can't check the angle, assume it's bad?
-                            false
-                        }
-                    } else {
-                        true
-                    };
-
-                    check_planar && check_angle
+                        // No face normal, so we can't check the angle, assume it's bad?
+                        false
+                    }
                 } else {
-                    false
-                }
+                    true
+                };
+
+                check_planar && check_angle
             } else {
                 false
-            };
-
-            self.store_and_return(vertex_index, is_ok)
+            }
+        } else {
+            false
         }
     }
 }
